@@ -1,17 +1,52 @@
 /-
-  Props/C08 — property theorems over M-Core (see DESIGN.md §4 C08).
+  Props/C08 — an idle rollapp's proposer is slashed on schedule; an active one never.
+  (Arithmetic clauses about the function regenerated from `NextSlashHeight`; the invariant clauses
+  about the event queue are in progress — see DESIGN.md.)
 -/
-import DymVerif.Model.Core
+import DymVerif.Lemmas.CoreLiveness
+import DymVerif.Lemmas.GenEqArith
 namespace DymVerif.C08
 open DymVerif DymVerif.Core
 
-/-- a rejected message leaves every component of the state untouched (the model returns its input
-    state on error, mirroring baseapp's per-message cache context; that the real code does so is
-    checked by the harness: full observation equality after every rejected op) -/
+/-- a rejected message leaves the state untouched -/
 theorem reject_unchanged (s : St) (o : Op) (e : Err) (h : (step s o).2 = some e) : (step s o).1 = s := by
   unfold step at *
   cases h' : apply s o with
   | ok s' => simp [h'] at h
   | error e' => simp [h']
+
+/-- the scheduled liveness event always lies strictly in the future — for every
+    `LivenessSlashBlocks` N ≥ 0 and `LivenessSlashInterval` I ≥ 1 (including 1), about the function
+    the source currently has -/
+theorem next_slash_future (N I hub last : Nat) (hI : 1 ≤ I) (hl : last ≤ hub) :
+    hub < Gen.Arith.nextSlashHeight N I hub last := by
+  rw [GenEq.nextSlashHeight_eq]; exact nextSlashHeight_future N I hub last hI hl
+
+/-- it lies on the grid `last + N + k·I` … -/
+theorem next_slash_on_grid (N I hub last : Nat) :
+    ∃ k, Gen.Arith.nextSlashHeight N I hub last = last + N + k * I := by
+  rw [GenEq.nextSlashHeight_eq]; exact nextSlashHeight_grid N I hub last
+
+/-- … and is the least grid point after the current height: no slash opportunity is skipped -/
+theorem next_slash_least (N I hub last k : Nat) (hI : 1 ≤ I) (hl : last ≤ hub)
+    (hk : hub < last + N + k * I) : Gen.Arith.nextSlashHeight N I hub last ≤ last + N + k * I := by
+  rw [GenEq.nextSlashHeight_eq]; exact nextSlashHeight_least N I hub last k hI hl hk
+
+/-- inside the first window the event is exactly N blocks after the last update -/
+theorem first_event_after_N (N I hub last : Nat) (h : hub < last + N) (hl : last ≤ hub) :
+    Gen.Arith.nextSlashHeight N I hub last = last + N := by
+  rw [GenEq.nextSlashHeight_eq]; exact nextSlashHeight_first N I hub last h hl
+
+/-- when an event fires at `last + N + j·I` and the rollapp stays idle, the next one is scheduled
+    exactly one interval later: "again every LivenessSlashInterval blocks" -/
+theorem next_event_one_interval_later (N I last j : Nat) (hI : 1 ≤ I) :
+    Gen.Arith.nextSlashHeight N I (last + N + j * I) last = last + N + (j + 1) * I := by
+  rw [GenEq.nextSlashHeight_eq]; exact nextSlashHeight_step N I last j hI
+
+/-- the slash amount `min(bond, max(abs, ⌊mul·bond⌋))` never exceeds the bond -/
+theorem slash_amount_le_bond (tokens abs tm : Nat) : min tokens (max abs tm) ≤ tokens := Nat.min_le_left _ _
+
+-- non-vacuity: N = I = 1 (the smallest accepted parameters), idle for 3 blocks
+example : Gen.Arith.nextSlashHeight 1 1 10 7 = 11 := by decide
 
 end DymVerif.C08
